@@ -144,7 +144,8 @@ where
       let strat = &strat;
       let check = &check;
       let name = name.to_string();
-      sc.spawn(move || {
+      let builder = std::thread::Builder::new().stack_size(256 << 20).name(format!("shard{}", shard));
+      let _ = builder.spawn_scoped(sc, move || {
         let cfg = Config {
           cases,
           failure_persistence: None,
